@@ -3,7 +3,7 @@
 # (scratch worktree, removed afterwards): the demo must pass without the change and fail with it.
 set -u
 export GOFLAGS=-mod=mod GOPROXY=off GOSUMDB=off GOTOOLCHAIN=local
-wt=/tmp/wt-reval
+wt=/tmp/wt-reval-$$
 git -C /repo worktree remove --force $wt 2>/dev/null
 git -C /repo worktree add --detach $wt HEAD >/dev/null 2>&1 || exit 9
 ids="$*"; [ -n "$ids" ] || ids=$(ls -d /verif/seeded/C[0-9]* | xargs -n1 basename)
